@@ -30,9 +30,9 @@ import (
 	"github.com/smart-core-os/sc-golang/pkg/trait"
 	"github.com/smart-core-os/sc-golang/pkg/trait/electricpb"
 	"github.com/smart-core-os/sc-golang/pkg/trait/enterleavesensorpb"
+	"github.com/smart-core-os/sc-golang/pkg/trait/lightpb"
 	"github.com/smart-core-os/sc-golang/pkg/trait/metadatapb"
 	"github.com/smart-core-os/sc-golang/pkg/trait/parentpb"
-	"github.com/smart-core-os/sc-golang/pkg/trait/lightpb"
 	"github.com/smart-core-os/sc-golang/pkg/trait/vendingpb"
 	"github.com/smart-core-os/sc-golang/pkg/wrap"
 	lib "github.com/smart-core-os/sc-golang/verif_h/lib"
@@ -637,7 +637,97 @@ func programs() []program {
 		pool := make([]resource.WriteOption, 1, 4)
 		pool[0] = resource.WithUpdatePaths("preset")
 		par(func() { l.UpdateBrightness(&traits.Brightness{Preset: &traits.LightPreset{Name: "dim"}}, pool[:1]...) },
-			func() { l.UpdateBrightness(&traits.Brightness{Preset: &traits.LightPreset{Name: "bright"}}, pool[:1]...) })
+			func() {
+				l.UpdateBrightness(&traits.Brightness{Preset: &traits.LightPreset{Name: "bright"}}, pool[:1]...)
+			})
+	})
+	// two clients page through one (unchanging) listing at the same time: whatever a List call uses to build its
+	// page and its token is its own
+	add("electric/ListModes(pages of 1)||ListModes(pages of 1)", func() {
+		e := electricpb.NewModel()
+		for _, id := range []string{"a", "b", "c"} {
+			e.AddMode(&traits.ElectricMode{Id: id, Title: id})
+		}
+		srv := electricpb.NewModelServer(e)
+		walk := func() {
+			tok := ""
+			for i := 0; i < 4; i++ {
+				r, err := srv.ListModes(bg, &traits.ListModesRequest{Name: "n", PageSize: 1, PageToken: tok})
+				if err != nil {
+					return
+				}
+				touch(r)
+				if tok = r.NextPageToken; tok == "" {
+					return
+				}
+			}
+		}
+		par(walk, walk)
+	})
+	add("vending/ListConsumables(pages of 1)||ListInventory(pages of 1)", func() {
+		v := vendingpb.NewModel()
+		for _, id := range []string{"a", "b", "c"} {
+			v.CreateConsumable(&traits.Consumable{Name: id})
+			v.CreateStock(&traits.Consumable_Stock{Consumable: id})
+		}
+		srv := vendingpb.NewModelServer(v)
+		par(func() {
+			tok := ""
+			for i := 0; i < 4; i++ {
+				r, err := srv.ListConsumables(bg, &traits.ListConsumablesRequest{Name: "n", PageSize: 1, PageToken: tok})
+				if err != nil {
+					return
+				}
+				touch(r)
+				if tok = r.NextPageToken; tok == "" {
+					return
+				}
+			}
+		}, func() {
+			tok := ""
+			for i := 0; i < 4; i++ {
+				r, err := srv.ListInventory(bg, &traits.ListInventoryRequest{Name: "n", PageSize: 1, PageToken: tok})
+				if err != nil {
+					return
+				}
+				touch(r)
+				if tok = r.NextPageToken; tok == "" {
+					return
+				}
+			}
+		})
+	})
+	add("parent/ListChildren(pages of 1)||ListChildren(pages of 1)", func() {
+		m := parentpb.NewModel()
+		for _, id := range []string{"a", "b", "c"} {
+			m.AddChild(&traits.Child{Name: id})
+		}
+		srv := parentpb.NewModelServer(m)
+		walk := func() {
+			tok := ""
+			for i := 0; i < 4; i++ {
+				r, err := srv.ListChildren(bg, &traits.ListChildrenRequest{Name: "n", PageSize: 1, PageToken: tok})
+				if err != nil {
+					return
+				}
+				touch(r)
+				if tok = r.NextPageToken; tok == "" {
+					return
+				}
+			}
+		}
+		par(walk, walk)
+	})
+	// metadata: two callers that pass their write options from one pool (room behind what each passes)
+	add("metadata/MergeMetadata||UpdateTraitMetadata, options from one pool", func() {
+		md := metadatapb.NewModel()
+		pool := make([]resource.WriteOption, 1, 4)
+		pool[0] = resource.WithUpdatePaths("membership")
+		par(func() {
+			m, _ := md.MergeMetadata(&traits.Metadata{Membership: &traits.Metadata_Membership{Subsystem: "a"}}, pool[:1]...)
+			touch(m)
+		},
+			func() { m, _ := md.UpdateTraitMetadata(&traits.TraitMetadata{Name: "T"}, pool[:1]...); touch(m) })
 	})
 	add("vending/Dispense||GetStock||List", func() {
 		v := vendingpb.NewModel(vendingpb.WithInitialStock(&traits.Consumable_Stock{Consumable: "milk", Used: &traits.Consumable_Quantity{Unit: traits.Consumable_LITER, Amount: 1}, Remaining: &traits.Consumable_Quantity{Unit: traits.Consumable_LITER, Amount: 9}}))
@@ -753,6 +843,9 @@ func main() {
 			q, t = 0, 1 // three callers on two full subscription pipelines: 70 000 executions at one preemption
 		}
 		h.Sched(p.name, q, t, p.body, raceOracle(p.name))
+	}
+	for _, p := range serverPrograms() {
+		h.Sched(p.name, 0, 1, p.body, raceOracle(p.name))
 	}
 	h.Run()
 }
